@@ -258,3 +258,26 @@ Fixpoint sess_run (st : sess) (ops : list sop) : sess * list sout :=
   end.
 
 End Session.
+
+(* ---------- the info file may be replaced during a session ---------- *)
+(* ShardedFileAccessor.info (getter) parses the info FILE on every access
+   unless the attribute was set through the setter; store_chunk consults it
+   only for a scale key that is not yet in shard_dict.  So replacing the info
+   file (store_file("info", ..., overwrite=True), which is what
+   get_IO_for_new_dataset(..., overwrite_info=True) does) changes the specs of
+   the scales that are FIRST written afterwards and of no other.  In the model
+   the info is the [cfg] argument of sess_store; an [IInfo] step replaces it. *)
+Inductive iop :=
+| IOp (o : sop)
+| IInfo (c : N -> option (vspec * sparams)).
+
+Fixpoint isess_run (data_enc idx_enc : bytes -> bytes)
+                   (c : N -> option (vspec * sparams)) (st : sess) (ops : list iop)
+  : sess * list sout :=
+  match ops with
+  | [] => (st, [])
+  | IInfo c' :: r => isess_run data_enc idx_enc c' st r
+  | IOp o :: r =>
+      let '(st1, os1) := sess_run c data_enc idx_enc st [o] in
+      let '(st2, os2) := isess_run data_enc idx_enc c st1 r in (st2, os1 ++ os2)
+  end.
